@@ -66,7 +66,7 @@ func (c *Ctx) pathsInline(rule string, fn *ssa.Function, inline map[*ssa.Functio
 		return nil
 	}
 	var ps []*pathx.Path
-	st, err := pathx.Enumerate(fn, pathx.Config{Loads: true, InlineLoops: true, Inline: func(caller, callee *ssa.Function) bool {
+	st, err := pathx.Enumerate(fn, pathx.Config{Loads: true, InlineLoops: true, StableLoad: stableConfigLoad, Inline: func(caller, callee *ssa.Function) bool {
 		return inline[callee] && !pathx.HasLoop(callee) || c.expandInPlace(caller, callee)
 	}}, func(p *pathx.Path) { ps = append(ps, p) })
 	if err != nil {
@@ -751,6 +751,106 @@ func (c *Ctx) ord5() {
 			a.fail(p, last, "ReadSlices returns an error originating from %s without resetting the connection: the next call continues on a broken or misaligned stream", origin)
 		}
 	}
+	// the converse: an error from the stream, a handler or the acknowledgement
+	// write is never stepped over. Behind each such call the very next thing
+	// the read routine does — another call, the next iteration, a return —
+	// happens with the error known nil, or it is the reset (toOffline), or the
+	// error is one of the two documented non-failures (errDupe, BigMessage)
+	// or a closed connection that is redialled.
+	skip := c.acc("ORD-5", rs, "error-result-examined-before-the-routine-goes-on")
+	wire := c.wireCapable()
+	origins := func(e *pathx.Event) bool {
+		if e.Kind != pathx.KCall || e.Depth != 0 || e.Callee == nil {
+			return false
+		}
+		if wire[e.Callee] {
+			return true
+		}
+		if load.TopLevel(e.Callee).Pkg != c.P.Root || c.isNewHelper(e.Callee) {
+			return false
+		}
+		n := e.Callee.Name()
+		return n == "discard" || n == "peekPacket" || strings.HasPrefix(n, "on")
+	}
+	for _, p := range c.Paths("ORD-5", rs) {
+		for i := range p.Events {
+			e := &p.Events[i]
+			if !origins(e) {
+				continue
+			}
+			er := pathx.ErrResult(e.Result)
+			if er == nil {
+				continue
+			}
+			// the next step of the routine
+			j := -1
+			for k := i + 1; k < len(p.Events); k++ {
+				n := &p.Events[k]
+				if n.Depth != 0 {
+					continue
+				}
+				switch n.Kind {
+				case pathx.KCall:
+					if name := stdName(n.Callee); name == "errors.Is" || name == "errors.As" || name == "fmt.Errorf" || name == "errors.Join" {
+						continue // classifying or wrapping the error
+					}
+					if n.Call != nil {
+						if _, isB := n.Call.Value.(*ssa.Builtin); isB {
+							continue
+						}
+					}
+					j = k
+				case pathx.KLoopBack, pathx.KReturn:
+					j = k
+				}
+				if j >= 0 {
+					break
+				}
+			}
+			if j < 0 {
+				continue
+			}
+			n := &p.Events[j]
+			rel, _, known := p.Known(er, i, j)
+			switch {
+			case known && rel == pathx.RNil:
+				skip.pass()
+			case isCallTo(n, off):
+				skip.pass()
+			case n.Kind == pathx.KReturn && retErr(p, j) != triNil && n.Kind == pathx.KReturn:
+				skip.pass() // returned (ORD-5 above demands the reset where one is due)
+			default:
+				// documented non-failures
+				okEx := false
+				for _, cm := range assumed(p, i, j) {
+					for _, k := range []cmp{cm, cm.swapped()} {
+						if k.Op == token.EQL && strip(k.X) == er && isSentinel(k.Y, "errDupe") {
+							okEx = true
+						}
+					}
+				}
+				for k := i + 1; k < j; k++ {
+					x := &p.Events[k]
+					if x.Kind == pathx.KCall && (stdName(x.Callee) == "errors.Is" || stdName(x.Callee) == "errors.As") {
+						if rl, _, kn := p.Known(x.Result, k, j); kn && rl == pathx.RTrue {
+							okEx = true // closed connection (redial) or BigMessage
+						}
+					}
+				}
+				if okEx {
+					skip.pass()
+				} else {
+					skip.fail(p, j, "the read routine goes on (%s) although the error of %s has not been found nil: a failed read, handler or acknowledgement write is stepped over and the stream is used as if nothing happened", strings.TrimSpace(DescribeEvent(c.P, n)), load.FuncName(e.Callee))
+				}
+			}
+		}
+	}
+	skip.done(8, "behind every stream, handler and acknowledgement call the error is nil, returned, or answered by the reset")
+	for _, name := range []string{"(*Client).peekPacket", "(*Client).discard", "(*Client).handshake", "(*Client).resend"} {
+		if fn := c.Fn("ORD-5", name); fn != nil {
+			c.errorsNotSkippedIO("ORD-5", fn)
+		}
+	}
 	for _, a := range byOrigin {
 		a.done(1, "every such return passes toOffline")
 	}
@@ -798,4 +898,87 @@ func (c *Ctx) errOrigin(p *pathx.Path, r ssa.Value) (string, int) {
 		return "value:" + Expr(x.X), -1
 	}
 	return "unknown:" + Expr(r), -1
+}
+
+// errorsNotSkippedIO: in the packet reader and the skipper, behind every
+// deadline, read, peek and discard call the very next step happens with the
+// error known nil, or is the return of an error; the only way back into the
+// loop with an error is the tolerated deadline expiry (Timeout() true — that
+// progress was made is ORD-13's clause).
+func (c *Ctx) errorsNotSkippedIO(rule string, fn *ssa.Function) {
+	a := c.acc(rule, fn, "I/O-error-examined-before-the-function-goes-on")
+	wire := c.wireCapable()
+	isIO := func(e *pathx.Event) bool {
+		if e.Kind != pathx.KCall || e.Deferred || e.Depth != 0 {
+			return false
+		}
+		if e.Method != nil && (e.Method.Name() == "SetReadDeadline" || e.Method.Name() == "SetWriteDeadline") {
+			return true
+		}
+		switch stdName(e.Callee) {
+		case "(*bufio.Reader).ReadByte", "(*bufio.Reader).Peek", "(*bufio.Reader).Discard", "(*bufio.Reader).Read", "io.ReadFull":
+			return true
+		}
+		if e.Callee != nil && wire[e.Callee] {
+			return true
+		}
+		return persistenceOp(e) == "Load"
+	}
+	for _, p := range c.Paths(rule, fn) {
+		for i := range p.Events {
+			e := &p.Events[i]
+			if !isIO(e) {
+				continue
+			}
+			er := pathx.ErrResult(e.Result)
+			if er == nil {
+				continue
+			}
+			j := -1
+			timeout := false
+			for k := i + 1; k < len(p.Events) && j < 0; k++ {
+				n := &p.Events[k]
+				if n.Depth != 0 || n.Deferred {
+					continue
+				}
+				switch n.Kind {
+				case pathx.KCall:
+					name := stdName(n.Callee)
+					if name == "errors.Is" || name == "errors.As" || name == "fmt.Errorf" || name == "errors.Join" {
+						continue
+					}
+					if n.Method != nil && n.Method.Name() == "Timeout" {
+						if rl, _, kn := p.Known(n.Result, k, -1); kn && rl == pathx.RTrue {
+							timeout = true
+						}
+						continue
+					}
+					if n.Call != nil {
+						if _, isB := n.Call.Value.(*ssa.Builtin); isB {
+							continue
+						}
+					}
+					j = k
+				case pathx.KLoopBack, pathx.KReturn:
+					j = k
+				}
+			}
+			if j < 0 {
+				continue
+			}
+			n := &p.Events[j]
+			rel, _, known := p.Known(er, i, j)
+			switch {
+			case known && rel == pathx.RNil:
+				a.pass()
+			case n.Kind == pathx.KReturn && retErr(p, j) != triNil:
+				a.pass()
+			case n.Kind == pathx.KLoopBack && timeout && known && rel == pathx.RNotNil:
+				a.pass()
+			default:
+				a.fail(p, j, "%s goes on (%s) although the error of %s has not been found nil: a failed deadline, read or skip is stepped over", load.FuncName(fn), strings.TrimSpace(DescribeEvent(c.P, n)), strings.TrimSpace(DescribeEvent(c.P, e)))
+			}
+		}
+	}
+	a.done(2, "behind every I/O call the error is nil, returned, or a tolerated expiry")
 }
